@@ -529,6 +529,23 @@ func Check(env *core.Env, rep *core.Report) *core.Result {
 	// other, then read by a dependant: every run's captured output is that run's output (not the
 	// outputs of both runs piled up in one shared buffer)
 	for k := 0; k < 2; k++ {
+		// and: the second run of the task prints NOTHING (the stage silences it): its output is the empty
+		// text, not what an earlier run left behind
+		d := env.Sub("c11b3q")
+		home := env.Sub("c11homeq")
+		seen := filepath.Join(d, "seen")
+		y := fmt.Sprintf("tasks:\n  greet:\n    command: ['[ -n \"$QUIET\" ] || echo hello']\n  reader:\n    command:\n      - 'printf \"[%%s]\" \"$GREET_OUTPUT\" > %s'\npipelines:\n  p:\n    - name: g1\n      task: greet\n    - name: g2\n      task: greet\n      depends_on: [g1]\n      env: {QUIET: \"1\"}\n    - task: reader\n      depends_on: [g2]\n", seen)
+		_ = ioutil.WriteFile(filepath.Join(d, "tasks.yaml"), []byte(y), 0o644)
+		args := [][]string{{"--raw", "p"}, {"-o", "prefixed", "p"}}[k]
+		res := core.RunBin(d, append(core.CleanEnv(home), "GREET_OUTPUT=from-the-parent-process"), 30*time.Second, "", env.Taskctl, args...)
+		atomic.AddInt64(&evals, 1)
+		b, _ := ioutil.ReadFile(seen)
+		if res.Exit != 0 || string(b) != "[]" {
+			add("handover:empty-output-not-handed-over", fmt.Sprintf("task greet run by g1 (prints hello) and then by g2 (silenced by the stage's env: prints nothing), read by a dependant of g2, GREET_OUTPUT also set in the parent process: the dependant saw %q (exit %d), expected the empty text \"[]\"", string(b), res.Exit), map[string]interface{}{"yaml": y, "stderr": clip(res.Stderr)})
+			break
+		}
+	}
+	for k := 0; k < 2; k++ {
 		d := env.Sub("c11b3")
 		home := env.Sub("c11home")
 		seen := filepath.Join(d, "seen")
